@@ -1422,7 +1422,12 @@ fn check_scale(case: &ScaleCase, ctx: &mut CaseCtx<'_>) -> Result<(), String> {
                 sampled.push((i, if *h { r.sorted_pairs() } else { r }));
             }
         }
-        let dbsize = Reply::from_resp(&node.execute(vcore::resp::parse_zc(&[b"DBSIZE".to_vec()])?).await);
+        // number of keys the executors hold (KEYS *; DBSIZE answers 0 on a ReplicatedShardedState:
+        // DbSize is not among the commands CommandExecutor::execute_readonly supports - not C11's)
+        let dbsize = match Reply::from_resp(&node.execute(vcore::resp::parse_zc(&[b"KEYS".to_vec(), b"*".to_vec()])?).await) {
+            Reply::Array(a) => Reply::Int(a.len() as i64),
+            other => other,
+        };
         Ok::<_, String>((stats, wal_n, snapshot, sampled, dbsize))
     };
     let (stats, wal_n, snapshot, sampled, dbsize) = if case.multi_thread {
@@ -1479,7 +1484,7 @@ fn check_scale(case: &ScaleCase, ctx: &mut CaseCtx<'_>) -> Result<(), String> {
         .filter(|(k, h)| !matches!(expected_answer(&truth, k, *h), Reply::Nil) && expected_answer(&truth, k, *h) != Reply::Array(vec![]))
         .count();
     if dbsize != Reply::Int(visible as i64) {
-        return Err(format!("DBSIZE answers {} but {} persisted keys are visible", dbsize.show(), visible));
+        return Err(format!("KEYS * lists {} keys but {} persisted keys are visible", dbsize.show(), visible));
     }
     ctx.nontrivial(case);
     Ok(())
@@ -1922,7 +1927,7 @@ fn main() {
     s.run_cases("boundary", s.scale(1_400, 60_000), boundary_case, check_boundary);
     s.describe_check("lifecycle", "1-3 process lifetimes over one store wired as the binary does (recover, start_workers, set_delta_sink, commands, graceful shutdown): what a restarted node serves = what the previous process served last; non-trivial = >= 2 sessions with writes");
     s.run_cases("lifecycle", s.scale(400, 12_000), life_case, check_lifecycle);
-    s.describe_check("scale", "fixed size, not work-factor scaled: 70 000 / 100 000 / 150 000 distinct keys (checkpoint of 20-25k keys over compacted segments, 40-60 live segments, a WAL tail) and 100 000 updates on 100 keys, recovered in one burst through StreamingIntegration::recover + the binary's WAL replay into a fresh node on a current-thread and on a multi-thread runtime; snapshot_state() count + checksum over sorted (key, value, stamps), sampled GET/HGETALL, DBSIZE vs the ground-truth fold");
+    s.describe_check("scale", "fixed size, not work-factor scaled: 70 000 / 100 000 / 150 000 distinct keys (checkpoint of 20-25k keys over compacted segments, 40-60 live segments, a WAL tail) and 100 000 updates on 100 keys, recovered in one burst through StreamingIntegration::recover + the binary's WAL replay into a fresh node on a current-thread and on a multi-thread runtime; snapshot_state() count + checksum over sorted (key, value, stamps), sampled GET/HGETALL, number of keys listed by KEYS * vs the ground-truth fold");
     s.run_enumerated("scale", scale_cases().into_iter(), check_scale);
     s.describe_check(
         "race",
